@@ -327,6 +327,7 @@ func isDelimiter(v ssa.Value, delim string) bool {
 }
 
 func Tenant(w *load.World, c *core.Collector) {
+	shardRoot(w, c)
 	props := []string{"C16"}
 	delim := "/"
 	if p := w.ByPath[clusterPkg]; p != nil {
@@ -1039,4 +1040,124 @@ func queryBlockTests(f *ssa.Function) map[string][]*ssa.BasicBlock {
 		}
 	}
 	return tests
+}
+
+// shardRoot: every path into the tree of shard directories is built from the shard manager's own
+// root directory. The node has a second root (for its own database); in the shipped configurations
+// the two coincide, so a path built from the wrong one works everywhere it is tried and puts a
+// received shard where the shard manager never looks on a node where they differ.
+func shardRoot(w *load.World, c *core.Collector) {
+	props := []string{"C14", "C16"}
+	// the struct whose RootDir the shard manager itself uses
+	var ref *types.Struct
+	for _, f := range clusterFns(w) {
+		if f.Signature.Recv() == nil || ssax.TypeName(f.Signature.Recv().Type()) != "cluster.ShardManager" {
+			continue
+		}
+		for _, b := range f.Blocks {
+			for _, in := range b.Instrs {
+				if fa, ok := in.(*ssa.FieldAddr); ok {
+					if st := ssax.StructOf(fa.X.Type()); st != nil && st.Field(fa.Field).Name() == "RootDir" {
+						ref = st
+					}
+				}
+			}
+		}
+	}
+	if ref == nil {
+		c.Add("TENANT", "anchor:shard-root", core.Undecided, "", "the shard manager's root directory field was not found", props...)
+		return
+	}
+	n := 0
+	for _, f := range clusterFns(w) {
+		for _, b := range f.Blocks {
+			for _, in := range b.Instrs {
+				call, ok := in.(*ssa.Call)
+				if !ok || call.Call.StaticCallee() == nil || call.Call.StaticCallee().String() != "path/filepath.Join" {
+					continue
+				}
+				parts := joinParts(call)
+				into := false
+				for _, p := range parts {
+					if s, ok := ssax.ConstString(p); ok && s == "userCollections" {
+						into = true
+					}
+				}
+				if !into || len(parts) == 0 {
+					continue
+				}
+				n++
+				key := "shard-root:" + load.FnKey(f)
+				okRoot := false
+				root := parts[0]
+				for i := 0; i < 3; i++ {
+					ld, isLd := root.(*ssa.UnOp)
+					if !isLd || ld.Op != token.MUL {
+						break
+					}
+					if fa, isFa := ld.X.(*ssa.FieldAddr); isFa {
+						if st := ssax.StructOf(fa.X.Type()); st != nil && st.Field(fa.Field).Name() == "RootDir" {
+							okRoot = st == ref
+						}
+						break
+					}
+					if al, isAl := ld.X.(*ssa.Alloc); isAl {
+						if sv := ssax.SingleStore(al); sv != nil {
+							root = sv
+							continue
+						}
+					}
+					break
+				}
+				if _, isParam := peelToParam(root).(*ssa.Parameter); isParam {
+					okRoot = true // handed in by the caller: checked where the argument is built
+				}
+				if okRoot {
+					c.Add("TENANT", key, core.OK, w.At(in), "", props...)
+				} else {
+					c.Add("TENANT", key, core.Violation, w.At(in), "a path into the shard directories is not rooted at the shard manager's own root directory: on a node where the node root and the shard root differ, the shard lands where the shard manager never looks (and the sender, seeing a matching checksum, deletes its copy)", props...)
+				}
+			}
+		}
+	}
+	c.Count("paths_into_shard_tree", n)
+	if n < 3 {
+		c.Add("TENANT", "anchor:shard-paths", core.Undecided, "", fmt.Sprintf("found %d paths built into the shard directory tree, expected at least 3", n), props...)
+	}
+}
+
+// joinParts: the elements handed to filepath.Join (the variadic slice unpacked).
+func joinParts(call *ssa.Call) []ssa.Value {
+	if len(call.Call.Args) != 1 {
+		return call.Call.Args
+	}
+	sl, ok := call.Call.Args[0].(*ssa.Slice)
+	if !ok {
+		return nil
+	}
+	arr, ok := sl.X.(*ssa.Alloc)
+	if !ok {
+		return nil
+	}
+	byIdx := map[int64]ssa.Value{}
+	for _, r := range *arr.Referrers() {
+		ia, ok := r.(*ssa.IndexAddr)
+		if !ok {
+			continue
+		}
+		idx, isC := ssax.ConstInt(ia.Index)
+		if !isC {
+			continue
+		}
+		for _, rr := range *ia.Referrers() {
+			if st, ok := rr.(*ssa.Store); ok && st.Addr == ssa.Value(ia) {
+				byIdx[idx] = st.Val
+			}
+		}
+	}
+	var out []ssa.Value
+	for i := int64(0); i < int64(len(byIdx)); i++ {
+		out = append(out, byIdx[i])
+	}
+	return out
 }
